@@ -1,6 +1,6 @@
 /* ops_key.h: work-unit-local storage (C16).  Included by ops.h. */
 
-#define MAXKSEQ 24
+#define MAXKSEQ 64
 struct kvrec {
     int owner, key, seq, isnull;
     volatile uint64_t t_start, t_end; /* interval of the set call */
